@@ -118,18 +118,26 @@ Print Assumptions C17_latest_monotone.
 (** C17_sound_mpd, the part that is proved (named _partial): whenever generateSegmentTimelineNrMPD writes
     an MPD for [first,last], (1) every number of the range has a live counter whose count is at least
     _nrTracks, and (2) for every adaptation set, its first representation has a stored item for every
-    number of the range (in order, [items_at]), the durations listed by the S elements are those
-    items' durations, and the start times are the first item's time plus the durations before - i.e.
-    every item's own time when the items follow each other without a gap in time.
-    MISSING for the full statement (every track, not only the first representation of each adaptation
-    set, has the listed items): the invariant that a counter's count is at most the number of track
-    buffers that hold the number (window reasoning between seqCounters and the per-track buffers).
-    It is false on this tree when a track delivers its first segment after the start
-    (C17_late_track_refuted); for runs without a late track it is checked by the oracle on every run. *)
+    number of the range (in order, [items_at]) and the S elements list exactly those items: the expansion of
+    the timeline is the list of the items' own (start time, duration) - since 4e0d5ea also where a segment does
+    not start at the end of the previous one (the S element then carries @t). [item_timed] is what the
+    receiver's types give: start times in uint64, durations in uint32, and a segment's end still in uint64.
+    STILL PARTIAL (missing for the full statement: every track, not only the first representation of each
+    adaptation set, has the listed items with these times): the invariant that a counter's count is at most
+    the number of track buffers that hold the number (window reasoning between seqCounters and the per-track
+    buffers). It is false on this tree when a track delivers its first segment after the start
+    (C17_late_track_refuted); for runs without a late track it is checked by the oracle on every run.
+    Also outside the model: that the buffer entry describes the stored FILE (false for a number that is
+    uploaded again with another duration: finding c17-reupload-entry-keeps-first-timing, L1 oracle). *)
 Theorem C17_sound_mpd_partial : forall g nl asets g' pub,
   gen_inv g -> gen_generate g nl asets = Ok (g', Some pub) ->
   (forall n, p_first pub <= n <= p_last pub -> exists c, In (n, c) (sc_live (g_cnt g)) /\ g_ntracks g <= c) /\
-  Forall2 (aset_sound g (p_first pub) (p_last pub)) asets (p_tl pub).
+  Forall2 (fun reps tl => exists rep b items,
+             hd_error reps = Some rep /\ lookup rep (g_bufs g) = Some b /\
+             lenZ items = Z.of_nat (Z.to_nat (p_last pub - p_first pub + 1)) /\
+             items_at b (p_first pub) items /\
+             (Forall item_timed items -> expand tl 0 = map (fun it => (i_dts it, i_dur it)) items))
+          asets (p_tl pub).
 Proof. exact gen_generate_sound. Qed.
 Print Assumptions C17_sound_mpd_partial.
 
@@ -163,19 +171,32 @@ Theorem C17_late_track_refuted :
 Proof. exact late_track_refuted. Qed.
 Print Assumptions C17_late_track_refuted.
 
-(** start times: the timeline gives the time of the first listed segment and durations; a stored segment that
-    does not start where the previous number of its track ends is listed with the running sum, not with its own
-    time (finding c17-timeline-times-assume-contiguity; C17_sound_mpd_partial says what does hold) *)
-Theorem C17_time_discontinuity_refuted :
+(** ** Formerly refuted, now proved of the repaired code (the witnesses of the old refutations) *)
+
+(** C17_time_discontinuity_refuted (4e0d5ea). Before the repair the timeline carried the start time of the first
+    listed segment only: a stored segment that does not start where the previous number of its track ends
+    (number 3 is 60 ticks long instead of 100, number 4 starts on the grid at 400) was listed with the running sum
+    (360). The statement about the parent commit is about the loop of modifySegmentTemplate as it was
+    ([timeline_loop_before_fix]); the same segments through the channel as it is now are listed with their own
+    times (general statement: C17_sound_mpd_partial). *)
+Theorem C17_time_discontinuity_refuted_before_fix :
+  exists b tl it,
+    sdb_adds (sdb_new 8) [mkItem 1 100 100 false; mkItem 2 200 100 false; mkItem 3 300 60 false; mkItem 4 400 100 false] = Ok b /\
+    timeline_loop_before_fix b 1 4 None [] = Ok (Some tl) /\
+    sdb_getItem b 4 = Ok (Some it) /\ i_dts it = 400 /\
+    nth 3 (expand tl 0) (0, 0) = (360, 100).
+Proof. exact time_discontinuity_refuted_before_fix. Qed.
+Print Assumptions C17_time_discontinuity_refuted_before_fix.
+
+Theorem C17_time_discontinuity_repaired :
   exists c ups pubs c' pub b it,
     chan_inv c /\ run_pre c ups /\ chan_trace c ups = Ok (pubs, c') /\
     last pubs None = Some pub /\ p_first pub = 1 /\ p_last pub = 4 /\
+    p_tl pub = [[(100, 100, 1); (-1, 60, 0); (400, 100, 0)]] /\
     lookup 0 (g_bufs (ch_gen c')) = Some b /\ sdb_getItem b 4 = Ok (Some it) /\ i_dts it = 400 /\
-    nth 3 (expand (hd [] (p_tl pub)) 0) (0, 0) = (360, 100).
-Proof. exact time_discontinuity_refuted. Qed.
-Print Assumptions C17_time_discontinuity_refuted.
-
-(** ** Formerly refuted, now proved of the repaired code (the witnesses of the old refutations) *)
+    nth 3 (expand (hd [] (p_tl pub)) 0) (0, 0) = (400, 100).
+Proof. exact time_discontinuity_repaired. Qed.
+Print Assumptions C17_time_discontinuity_repaired.
 
 (** C17_counters_refine_refuted / C17_insert_breaks_inv_refuted: 6 into [5,7] and into [5,7,9] (ddde9b0) *)
 Theorem C17_counters_insert_repaired :
